@@ -271,6 +271,13 @@ def check_primitives(prog):
                     appended.append(x.args[0])
                 if isinstance(x, ast.Return) and isinstance(x.value, ast.BinOp) and isinstance(x.value.op, ast.Add):
                     appended.append(x.value.right)
+                # body[0:0] = prefix / body[:0] = prefix: the prefix goes in front of the very bytes that were measured
+                if isinstance(x, ast.Assign) and len(x.targets) == 1 and isinstance(x.targets[0], ast.Subscript) \
+                        and isinstance(x.targets[0].value, ast.Name) and x.targets[0].value.id == body_first \
+                        and isinstance(x.targets[0].slice, ast.Slice) and x.targets[0].slice.step is None \
+                        and (x.targets[0].slice.lower is None or r.fold(x.targets[0].slice.lower) == (True, 0)) \
+                        and x.targets[0].slice.upper is not None and r.fold(x.targets[0].slice.upper) == (True, 0):
+                    appended.append(x.targets[0].value)
             if not any(isinstance(a, ast.Name) and a.id == body_first for a in appended):
                 probs.append(Problem("L5", "encodeString", "prefix", "the bytes appended after the prefix are not the converted text that was measured", r.node))
     if W is None or not enc_text:
